@@ -99,6 +99,7 @@ func runC09(w *core.World, r *core.Report) {
 	r.Rule("R4", "CacheUseSize stores are 0 or self +/- len(frame value); frame list grows only by append(fresh map), shrinks only by shorter prefix")
 	r.Rule("R5", "every write before an error return of Add/Update is restored on the way to it")
 	r.Rule("R6", "Pop deletes Sizes[k] for every key of the removed frame")
+	r.Rule("R9", "the persister empties the session's cache object but never replaces it (the object carries the configured capacity)")
 	r.Rule("R8", "a size limit is deleted only together with its symbol: the key of every delete(Sizes, k) ranges over a frame that is being dropped")
 	r.Rule("R7", "the limit handed to Add by the LOAD handler is the instruction's size operand, converted without loss")
 
@@ -133,6 +134,7 @@ func runC09(w *core.World, r *core.Report) {
 
 	// R8
 	checkSizesDeletedWithFrame(w, r, "R8")
+	checkPersisterKeepsMemory(w, r, "R9")
 
 	// R7: the per-symbol limit the program declares is the limit the cache enforces - at every
 	// place in package vm that adds a symbol
